@@ -20,7 +20,7 @@ Set(r) == MkRRset(r, RfcCmp, ClsIN)
 Base == [i \in 1..4 |-> Set(R(1, Na, "TXT", <<>>, 100 + 1000 * i, 1))]
 Menu(sec) == {Set(R(sec, Nb, "TXT", <<>>, 100, 1)), Set(R(sec, Nb, "TXT", <<>>, 40, 3)), Set(R(sec, Na, "NS", Nb, 1, 1)),
               Set(R(sec, Nb, "A", <<>>, 1, 2))}
-Opt == MkOpt(1232, <<0, 0>>, <<<<10, 8, 7>>>>)
+Opt == MkOpt(1232, <<0, 0>>, <<<<10, Fill(8, 7)>>>>)
 Tsig == MkTsig(Nk, Alg, <<0, 0, 95, 94, 16, 0>>, 300, Fill(32, 85), 4660, 0, <<>>)
 Q == [name |-> Na, type |-> TyA, cls |-> ClsIN]
 
